@@ -179,3 +179,34 @@ def boost_matrix(ctx):
     ctx.eq("row0", prod[..., 0], E2, clause="(boost_matrix(P) p)[0] == boost(p, P3/P0)[0]")
     ctx.eq("rows123", prod[..., 1:4], p32, clause="(boost_matrix(P) p)[1:4] == boost(p, P3/P0)[1:4]")
     ctx.eq("agrees_with_boost", prod, LV.boost(p, v), clause="boost_matrix(P) p == LorentzVector.boost(p, boost_vector(P))")
+
+
+# ------------------------------------------------------------------ bounded stand-ins (real TF)
+@group(["C11"], "angle.boost/tiny_velocity_tolerance", ["angle:LorentzVector.boost"], env="tf", kind="B",
+       bound="|v| on a log grid 1e-12..1e-6 (and 0) x 6 directions x 40 seeded four-vectors; tolerance 1e-13*||p||_1 + |v|^2*||p||_1",
+       assumes=["for 0 <= |v|^2 <= 1e-14 the code sets gamma2 = 0, so the round trip is exact only to O(|v|^2) over the reals; checked numerically"])
+def boost_tiny(ctx):
+    import numpy as np
+
+    tf = ctx.mod("tensorflow_wrapper").tf
+    LV = ctx.mod("angle").LorentzVector
+    rs = np.random.RandomState(ctx.seed + 11)
+    ps = rs.uniform(-3, 3, size=(40, 4))
+    ps[:, 0] = np.abs(ps[:, 0]) + 0.1
+    dirs = np.array([[1, 0, 0], [0, 1, 0], [0, 0, 1], [1, 1, 0], [1, -1, 1], [-1, 2, 3]], dtype=float)
+    dirs /= np.linalg.norm(dirs, axis=1, keepdims=True)
+    worst = 0.0
+    bad = None
+    for mag in [0.0] + [10.0**k for k in range(-12, -5)]:
+        for d in dirs:
+            v = np.tile(d * mag, (40, 1))
+            q = LV.boost(LV.boost(tf.constant(ps), tf.constant(v)), tf.constant(-v)).numpy()
+            l1 = np.sum(np.abs(ps), axis=1, keepdims=True)
+            err = np.max(np.abs(q - ps) / (1e-13 * l1 + mag * mag * l1 + 1e-300))
+            ctx.count(key=(mag, tuple(d)), sample={"|v|": mag, "dir": d.tolist()})
+            if err > worst:
+                worst = err
+            if err > 1.0 and bad is None:
+                bad = {"v": (d * mag).tolist(), "err_over_tol": float(err)}
+    ctx.check("roundtrip_tiny_v", bad is None, clause="|boost(boost(p,v),-v) - p| <= (1e-13 + |v|^2) ||p||_1 for |v| <= 1e-6",
+              detail=str(bad), witness=bad)
